@@ -15,6 +15,7 @@ import (
 	"time"
 
 	"github.com/daeuniverse/dae/component/sniffing"
+	"github.com/daeuniverse/outbound/pool"
 )
 
 const (
@@ -739,6 +740,34 @@ func (p *PacketSnifferPool) ObserveFlowFamilyQuicInitial(key PacketSnifferKey, d
 	})
 
 	return matched || mismatched || seededExact, mismatched && !matched
+}
+
+// TakeFlowFamilyBufferedPackets returns copies of the datagrams that the sniffer
+// sessions of this flow family (same source and destination, any DCID) are still
+// holding back, oldest first within a session, and empties those sessions.
+// The caller owns the returned buffers and must Put them.
+func (p *PacketSnifferPool) TakeFlowFamilyBufferedPackets(key PacketSnifferKey) (pkts []pool.PB) {
+	if p == nil {
+		return nil
+	}
+	value, ok := p.flowFamilies.Load(key.FlowFamilyKey())
+	if !ok {
+		return nil
+	}
+	value.(*packetSnifferFlowFamilyRef).rangeMembers(func(_ PacketSnifferKey, sniffer *PacketSniffer) bool {
+		sniffer.Mu.Lock()
+		if data := sniffer.Data(); len(data) > 1 {
+			for _, d := range data[1:] {
+				dCopy := pool.Get(len(d))
+				copy(dCopy, d)
+				pkts = append(pkts, dCopy)
+			}
+			sniffer.CompactPacketState()
+		}
+		sniffer.Mu.Unlock()
+		return true
+	})
+	return pkts
 }
 
 // RemoveFlowFamilySessions closes and removes every sniffer session that
